@@ -213,6 +213,10 @@ def run_unit(unit, ctx):
                     "weeks_in_year": [c.weeks_in_year(2004), c.weeks_in_year(2001)],
                     "days_in_year_range": c.days_in_year_range(1999, 2004),
                     "week_start": list(c.cal_from_dn(c.week_year_start(2005))),
+                    "week_year_add": [list(c.add_years("week", (2001, 52, 2), 1)), list(c.add_years("week", (2004, 52, 7), -2)),
+                                      list(c.add_years("week", (2000, 51, 1), 5))],
+                    "nominal_lengths": [[c.len_common, 0], (c.len_common + 30) * 86400, c.len_common > 361, c.len_common <= 360,
+                                        c.len_common < 366],
                 }
                 for k, v in want.items():
                     ctx.transitions += 1
